@@ -33,7 +33,9 @@ let rec show = function
 let values_of s = match value_of s with VList l -> l | _ -> failwith "expected a list of values"
 
 let rec nat_of_int n = if n <= 0 then Datatypes.O else Datatypes.S (nat_of_int (n - 1))
-let depth = nat_of_int 4
+(* the implementation's own bound on CHAP/CTOC nesting: a frame read on its own may open nesting_limit levels of
+   sub-frames (sub_of nesting_limit), the reader of a whole tag is tag_read (S nesting_limit) *)
+let depth = nesting_limit
 let t22 = Gen_frames.frames_2_2
 let t34 = Gen_frames.all_frames
 let ascii s = Stdlib.List.init (String.length s) (fun i -> z_of_int (Char.code s.[i]))
@@ -58,7 +60,7 @@ let init () =
     res (fun (vs, rest) -> show (VList vs) ^ " " ^ hex_of_bytes rest)
       (from_data_d t22 t34 (z_of_string ver) depth (bool_of_string gu) (frame id) (z_of_string flags) (bytes_of_hex data)));
   register "c12_tag" (fun [ver; gu; data] ->
-    res show_parsed (tag_read t22 t34 (z_of_string ver) depth (bool_of_string gu) (bytes_of_hex data)));
+    res show_parsed (tag_read t22 t34 (z_of_string ver) (Datatypes.S depth) (bool_of_string gu) (bytes_of_hex data)));
   register "c12_peak" (fun [data] ->
     res (fun (p, rest) -> string_of_z p ^ " " ^ string_of_z (peak_wire p) ^ " " ^ hex_of_bytes rest) (vp_read (bytes_of_hex data)));
   register "c12_inflate" (fun [data] -> res hex_of_bytes (inflate_stored (bytes_of_hex data)));
